@@ -639,7 +639,15 @@ fn run_synth(ls: &mut Linters, it: &Item, out: &mut Buf) {
                 1 => SegmentBuilder::whitespace(tables.next_id(), " "), // not in the tree: dropped
                 _ => all[rng.range(1, all.len() - 1)].clone(),
             };
-            match rng.below(11) {
+            match rng.below(12) {
+                11 => {
+                    // a same-raw replacement (`is_just_source_edit`), sometimes after another replace:
+                    // the latter is the `unimplemented!()` of AnchorEditInfo::add
+                    if rng.chance(1, 2) {
+                        fixes.push(LintFix::replace(a.clone(), edit(&mut rng), None));
+                    }
+                    fixes.push(LintFix::replace(a.clone(), vec![a], None));
+                }
                 0 => fixes.push(LintFix::delete(a)),
                 1 => fixes.push(LintFix::replace(a, edit(&mut rng), None)),
                 2 => fixes.push(LintFix::create_before(a, edit(&mut rng))),
